@@ -227,27 +227,35 @@ theorem c13_holds_partial (es : List Endpoint) (g : Globals) (pt : PTree) (m : S
     globals_ok]
   rfl
 
-/-- (D) Outside F13c: the remedy that answers through the dispatcher (first of the endpoint-scoped
-    then global enabled remedies) is an enabled global remedy or an enabled remedy of an endpoint declared for
-    the request's method whose pattern matches the request URL. -/
+/-- (D) Outside F13c: the remedy that answers through the dispatcher (the first fixed-response one of the
+    endpoint-scoped then global enabled remedies) is an enabled global remedy or an enabled remedy of an endpoint
+    declared for the request's method whose pattern matches the request URL. -/
 theorem dispatch_sound_partial (es : List Endpoint) (g : Globals) (pt : PTree) (m : String) (u : List Part)
     (first : String) (hbuild : build es = .ok pt) (hF13c : boundaryMix es u = false)
     (hd : dispatchFirst pt g m u = some first) :
     dispOk es g m u first = true := by
   have hinv := build_inv hbuild
-  have hmem : first ∈ (getRemedies pt g m u).1 ++ (getRemedies pt g m u).2 := by
+  have hmem : ∃ r ∈ selRemedies pt g m u, r.name = first := by
     unfold dispatchFirst at hd
-    exact List.mem_of_mem_head? hd
+    cases hh : ((selRemedies pt g m u).filter (·.type == 7)).head? with
+    | none => rw [hh] at hd; simp at hd
+    | some r =>
+      rw [hh] at hd
+      simp only [Option.map_some, Option.some.injEq] at hd
+      have := List.mem_of_mem_head? hh
+      exact ⟨r, (List.mem_filter.mp this).1, hd⟩
+  obtain ⟨r, hr, hname⟩ := hmem
   unfold dispOk
   rw [Bool.or_eq_true]
-  rcases List.mem_append.mp hmem with h | h
+  unfold selRemedies at hr
+  rcases List.mem_append.mp hr with h | h
   · right
     cases hp : (select pt m u).policy with
-    | none => simp [getRemedies, hp] at h
+    | none => simp [hp] at h
     | some pol =>
       obtain ⟨q, i, e, _, hq, hm, hpol, _, _, _, _⟩ := select_char hinv hp
-      simp only [getRemedies, hp, hpol, Policy.remedies, List.mem_map, List.mem_filter, List.mem_flatMap] at h
-      obtain ⟨r, ⟨⟨x, hx, hr⟩, hen⟩, hname⟩ := h
+      simp only [hp, hpol, Policy.remedies, List.mem_filter, List.mem_flatMap] at h
+      obtain ⟨⟨x, hx, hrx⟩, hen⟩ := h
       obtain ⟨hx1, hx2, hx3⟩ := mem_group.mp hx
       rw [List.any_eq_true]
       refine ⟨x, hx1, ?_⟩
@@ -261,18 +269,43 @@ theorem dispatch_sound_partial (es : List Endpoint) (g : Globals) (pt : PTree) (
         rw [hx3] at this
         simpa using this
       simp only [hx2, hmatch, beq_self_eq_true, Bool.true_and, List.any_eq_true]
-      exact ⟨r, hr, by simp [hen, hname]⟩
+      exact ⟨r, hrx, by simp [hen, hname]⟩
   · left
-    simp only [getRemedies, List.mem_map, List.mem_filter] at h
-    obtain ⟨r, ⟨hr, hen⟩, hname⟩ := h
+    simp only [List.mem_filter] at h
     rw [List.any_eq_true]
-    exact ⟨r, hr, by simp [hen, hname]⟩
+    exact ⟨r, h.1, by simp [h.2, hname]⟩
 
-/-- non-vacuity of (D). -/
+/-- (D, response leg) Outside F13c: an early answer is run through the response leg under the policy the
+    request's (method, URL) selects — the retry remedies that act on it are those of the applied endpoint group
+    and the global ones (`respLegOk` on the model's own answer). -/
+theorem early_response_leg_partial (es : List Endpoint) (g : Globals) (pt : PTree) (m : String) (u : List Part)
+    (hbuild : build es = .ok pt) (hF13c : boundaryMix es u = false) :
+    respLegOk es g m u (observe pt g m u) (dispatchRespActive pt g m u) = true := by
+  have hinv := build_inv hbuild
+  unfold respLegOk
+  cases hp : (select pt m u).policy with
+  | none =>
+    have : (observe pt g m u).pol = none := by simp [observe, hp]
+    rw [this]
+    simp [dispatchRespActive, hp, retryCount]
+  | some pol =>
+    have := any_soundFor hinv g m u hF13c
+      (fun e => dispatchRespActive pt g m u ==
+        (if retryCount ((group es m e.parts).flatMap (·.remedies)) + retryCount g.remedies > 0 then 1 else 0))
+      (by
+        intro q i e hl hq hpol _ hep
+        simp only [dispatchRespActive, hpol, Policy.remedies, hep, beq_self_eq_true])
+    have hpolv : (observe pt g m u).pol = some pol.url := by simp [observe, hp]
+    rw [hpolv] at this ⊢
+    exact this
+
+/-- non-vacuity of (D): the dispatcher answers with A, and with a retry remedy on the same endpoint the early
+    answer is modified on the response leg. -/
 example :
-    (match build [epUsersId, epUsersMe] with
+    (match build [{ epUsersId with remedies := [⟨"A", 7, true⟩, ⟨"R", 8, true⟩] }, epUsersMe] with
      | .ok pt => dispatchFirst pt noGlobals "GET" urlUsers123 == some "A" &&
-                 dispOk [epUsersId, epUsersMe] noGlobals "GET" urlUsers123 "A"
+                 dispatchRespActive pt noGlobals "GET" urlUsers123 == 1 &&
+                 dispatchRespActive pt noGlobals "POST" urlUsers123 == 0
      | .error _ => false) = true := by
   decide
 
